@@ -42,7 +42,7 @@ def check(tier, seed):
     res = C.Result('C05', tier, seed)
     res.rule = ('scripted receivers per attempt (silence, garbage, truncated/corrupted answers, foreign ACKs, NAKs, rejected MGA-ACKs, '
                 'unrelated UBX, NMEA, failed transmissions, undecodable answer frames, good answers on attempt k) x retries {0..10} x delay '
-                '{0,1,100,250,1800,5000} x all request kinds, plus endless answer-class / foreign-ACK / NAK / CRC-error / garbage traffic; '
+                '{0,1,100,250,1800,5000} x all request kinds, plus endless answer-class / foreign-ACK / NAK / CRC-error / garbage traffic and a never-pausing receiver on the real serial backend; every 4th scenario runs on the real serial backend over a scripted line; '
                 'virtual clock; compared: number of transmissions, elapsed time, returns-vs-raises with the model; bound oracle '
                 '(retries+1 sends, (retries+1)*k*(delay+T_rx) ms, no exception, no hang) on the implementation; non-trivial = >= 1 transmission')
     with C.WorkDir('C05') as wd:
@@ -67,6 +67,27 @@ def check(tier, seed):
                 res.violation('C05 oracle: ' + why, {'property': 'C05', 'input': desc, 'request': f'{sc["reqs"][0].op}:{sc["reqs"][0].label}',
                                                     'result': out[:300], 'reason': why}, f'C05|{sc["reqs"][0].op}|{sc["plan"][0][0]}|{why[:40]}')
             cases.append(C.Case('request-endless', S.model_cmd(sc, sk), proj(out), desc, domain=False, kind='endless/' + sc['plan'][0][0], proj=proj))
+        # a receiver that never pauses (a byte every few ms for ever) on the real serial backend: requests still return within the bounds
+        rngb = C.rng_for(seed, 'C05-babble')
+        from .. import reflect as R2
+        breqs = [r for r in S.all_requests(rngb, R2.message_table(), kt) if r.op != 'fire']
+        n_b = 0
+        for rq in rngb.sample(breqs, min(len(breqs), 6 if tier == 'quick' else 60)) + [r for r in S.all_requests(rngb, R2.message_table(), kt) if r.op == 'fire'][:1]:
+            retries, delay = rngb.choice([(0, 0), (0, 100), (2, 250), (1, 1800), (10, 1)])
+            dt = rngb.choice([1, 7, 50])
+            byte = rngb.choice([0x55, 0x24, 0xB5, 0x00, 0x0A])
+            sc = {'retries': retries, 'delay': delay, 'script': {'pending': [], 'attempts': [], 'idle': dt, 'babble': (byte, dt)}, 'reqs': [rq],
+                  'plan': [('babble',)], 'backend': 'tty', 'bauds': (rngb.choice([9600, 115200]), None), 'alarm_s': 6}
+            out = S.run_scenario(sc)
+            desc = S.describe(sc)
+            desc['receiver'] = f'byte 0x{byte:02x} every {dt} ms, for ever'
+            r = S.parse_result(out)
+            n_b += 1
+            why = S.bounds_oracle(sc, rq, r)
+            if why:
+                res.violation('C05 oracle: ' + why, {'property': 'C05', 'input': desc, 'request': f'{rq.op}:{rq.label}', 'result': out[:300], 'reason': why},
+                              f'C05|{rq.op}|babble|{why[:40]}')
+        res.notes['never_pausing_receiver_runs'] = n_b
         # the configuration interface itself: accepted ranges (0..10, 0..5000), defaults, old value returned, refusals leave it as it was
         import ubxlib.server_base as SB
         from ubxlib.frame_factory import FrameFactory
